@@ -24,7 +24,8 @@ LEVEL_TEXT = ("Machine-checked Lean proofs, for every retry policy, buffer limit
 LEVEL_NOTE = ("Server discipline: scripted answers are written only at quiescent points (client blocked in RecvMsg/Header or op returned), "
               "in the model and in the harness alike; mid-burst failures of a replay are therefore outside the correspondence (they are "
               "inside the theorems only as far as replayAll always completing is concerned). Hedging does not exist in the code. "
-              "Known finding F20: a negative MaxRetryRPCBufferSize makes NewStream panic (nil cleanup).")
+              "A negative MaxRetryRPCBufferSize commits at once (negative_limit_commits_at_once); before /repo f1630c1 NewStream panicked "
+              "there (finding F33, fixed).")
 GAP = "answers arriving in the middle of a replay burst; concurrent SendMsg/RecvMsg; context cancellation during backoff (C23 covers cancel); name-resolution / picker failures (C23)"
 ASSUMPTIONS = ["the scripted server writes answers only at quiescent points", "http2 transport delivers frames of one stream in order (C02/C05)"]
 RULE = ("s_retry: random policy (maxAttempts 0/2..6, codes, backoff, channel limit 0/2/3/7, throttling, disableRetry), RPC kind "
